@@ -160,6 +160,58 @@ def run(ctx):
                  ctx.loc(f, st))
     if n_w < 3:
         raise AnalysisError('C06.R1: writes of RegularAction.complete lost')
+    # the refusal must not be caught on its way out: action_handler turns
+    # what it catches into action.fail() + force_fail_task(), i.e. a
+    # duplicate would fail a finished action, its task and the workflow
+    INc, kc = sd.analyze(cfg, f, [('self.action_ex.state', sd.state_domain)],
+                         kill=lambda c: ())
+    ah = prog.func('mistral.engine.action_handler.on_action_complete')
+    ah_caught = set()
+    for t in ast.walk(ah.node):
+        if isinstance(t, ast.Try):
+            for hd in t.handlers:
+                ah_caught |= set(U.handler_types(hd))
+    n_ref = 0
+    for x in cfg.nodes:
+        if x.kind == 'stmt' and isinstance(x.ast, ast.Raise) and x.ast.exc:
+            vals = sd.values_at(INc, kc, x, 'self.action_ex.state')
+            if vals and vals <= completed:
+                n_ref += 1
+                cls = dotted(x.ast.exc.func) if isinstance(
+                    x.ast.exc, ast.Call) else dotted(x.ast.exc)
+                short = (cls or '').split('.')[-1]
+                swallowed = any(h.split('.')[-1] in (short, 'Exception',
+                                                     'BaseException')
+                                for h in ah_caught) or \
+                    c03._mistral_exc(prog, f.module, cls)
+                r1.check(not swallowed, ctx.construct(f, x.ast),
+                         'the refusal of a repeated result (%s) is caught by '
+                         'action_handler.on_action_complete (%s): the '
+                         'duplicate fails the finished action, its task and '
+                         'the workflow instead of being rolled back'
+                         % (cls, sorted(ah_caught)), ctx.loc(f, x.ast))
+    r1.check(n_ref >= 1, ctx.construct(f, extra='completed => raise'),
+             'a result for a completed action is not refused', ctx.loc(f))
+    # repeated completion of a task (the only guard for sub-workflow
+    # results: WorkflowAction.complete is a no-op)
+    tc = prog.func('mistral.engine.tasks.Task.complete')
+    tcfg = ctx.cfg(tc)
+    from mstatic.statedom import OBJ as _OBJ
+    INt, kt = sd.analyze(tcfg, tc, [('self.task_ex.state', sd.state_domain),
+                                    ('state', sd.state_domain),
+                                    ('self.task_ex', (_OBJ,))],
+                         kill=lambda c: (),
+                         types={'self': 'mistral.engine.tasks.Task'})
+    for n, c in U.calls_in(tcfg, 'set_state'):
+        bad = [v for v in INt[n.id]
+               if v[0] in completed and v[1] != 'SKIPPED']
+        r1.check(not bad, ctx.construct(tc, c, extra='completed task left '
+                                        'alone'),
+                 'Task.complete goes on for a task that is already %s when '
+                 '%s is requested: a repeated sub-workflow result publishes '
+                 'and dispatches the follow-up tasks a second time'
+                 % (bad[0][:1] if bad else '', bad[0][1:] if bad else ''),
+                 ctx.loc(tc, c))
     eng = prog.func(ENG + '.on_action_complete')
     caught = set()
     for t in ast.walk(eng.node):
